@@ -12,7 +12,7 @@
     theorem holds for all of them. *)
 From Coq Require Import ZArith QArith List Bool String Permutation Sorted.
 From Verif Require Import Base Cal Tables Period Builder BuilderSpec BuilderProofs BuilderGroupProofs
-  BuilderValueProofs BuilderRejectProofs.
+  BuilderValueProofs BuilderRejectProofs BuilderOwnProofs.
 Import ListNotations.
 Open Scope Z_scope.
 Open Scope string_scope.
@@ -296,56 +296,77 @@ Print Assumptions mismatched_period_rejected.
 
 (** * 4. What a successful build contains *)
 
-(** full statement, for documents without axes: ids in declaration order plus one group per
-    person left out; memberships and roles as declared; every declared value stored under the
-    canonical period of its key at its instance's index (variables without a set-input rule,
-    periods of the definition unit: the other cases are C16's conservation laws) *)
-Definition build_spec_statement : Prop :=
-  forall x s doc sim, wf_sys s ->
-    (forall l, Permutation (set_order x l) l) ->
-    aget "axes" doc = None ->
-    build_from_entities x s doc = Ok sim ->
-    (* persons *)
-    (forall persons pop, instances_of doc (s_person s) = Some persons -> pop_of sim (s_person s) pop ->
-       p_ids pop = map fst persons) /\
-    (* groups *)
-    (forall e l persons pop, In e (s_groups s) -> instances_of doc e = Some l ->
-       instances_of doc (s_person s) = Some persons -> pop_of sim e pop ->
-       exists own, p_ids pop = map fst l ++ own
-         /\ Permutation own (filter (fun p => negb (existsb (fun gf =>
-               match snd gf with
-               | JObj fields => existsb (fun r => mem_str p (role_members r fields)) (e_roles e)
-               | _ => false end) l)) (map fst persons))
-         /\ (forall gid r i pid gi k, declared_member e l gid r i pid ->
-               index_of gid (map fst l) = Some gi -> index_of pid (map fst persons) = Some k ->
-               nth_error (p_members pop) k = Some (Z.of_nat gi)
-               /\ nth_error (p_mroles pop) k = Some (role_at r i))
-         /\ (forall pid k, In pid own -> index_of pid (map fst persons) = Some k ->
-               exists g, nth_error (p_members pop) k = Some (Z.of_nat g)
-                         /\ nth_error (p_ids pop) g = Some pid /\ (List.length l <= g)%nat
-                         /\ nth_error (p_mroles pop) k = Some (first_role e)
-                         /\ forall vn h p arr, aget vn (p_holders pop) = Some h -> hget h p = Some arr ->
-                              exists v, find_var vn (s_vars s) = Some v
-                                        /\ nth_error arr g = Some (v_default v))) /\
-    (* values *)
-    (forall e l id fields dated vn t value v p c idx pop,
-       In e (entities s) -> instances_of doc e = Some l ->
-       In (id, JObj fields) l -> In (vn, JObj dated) fields -> In (t, value) dated ->
-       value <> JNull -> find_var vn (s_vars s) = Some v -> v_rule v = RNone -> v_end v = None ->
-       canon_key (tok x t) = Ok p -> last_for x dated t p -> check_set_value x v value = Ok c ->
-       index_of id (map fst l) = Some idx -> pop_of sim e pop ->
-       stored pop vn (storage_key v p) idx c).
-(* Proved at document level: the persons clause ([build_spec_partial], first part), the whole
-   groups clause except "the new groups hold defaults" ([build_spec_groups]: ids = declared ++
-   one per person left out, every declared member recorded with its group and (sub-)role by
-   rank, every person left out alone in a new group with the first role), and the values
-   clause for the declarations of PERSONS ([build_spec_person_values]).  Proved for the steps
-   of the builder only: the values declared in GROUP instances ([add_variable_value_spec] in
-   [build_spec_partial], [pad_array_spec] in [own_groups]: the groups added later hold the
-   default and the declared ones keep their values).  Missing for [build_spec_statement]: the
-   same frame argument as for persons threaded through [add_group_instances] / [pad_buffer]
-   for the values of groups, and eternal variables given several keys (the last flushed wins). *)
+(** For every document without axes that builds ([no_rule v]: no set-input rule, not eternal, no
+    end date - the spreading of longer periods is C16's; an eternal variable given several keys
+    keeps the last one flushed): one person per declared id in declaration order; every value
+    declared for a person or for a group stored at the canonical period of its key (the last key
+    of the declaration denoting that period) and at the instance's index, converted by
+    [check_set_value]; for every group kind with declared instances one group per declared id in
+    declaration order followed by one new group per person left out, every declared member
+    recorded with its group and its (sub-)role by rank, every person left out alone in a new
+    group with the first role, and the new groups hold the default value in every array. *)
+Theorem build_spec :
+  forall x s doc sim persons,
+  NoDup (plurals s) -> NoDup (singulars s) ->
+  (forall l, Permutation (set_order x l) l) ->
+  aget "axes" doc = None ->
+  aget (e_plural (s_person s)) (aremove "axes" doc) = Some (JObj persons) ->
+  NoDup (map fst persons) ->
+  build_from_entities x s doc = Ok sim ->
+  (* 1. persons: one per declared id, in declaration order *)
+  (exists pop rest, sim = pop :: rest /\ p_entity pop = e_key (s_person s) /\ p_ids pop = map fst persons) /\
+  (* 2. a value declared for a person *)
+  (forall ppre pid fields ppost pre vn dated post dpre t value dpost v p c idx,
+     persons = ppre ++ (pid, JObj fields) :: ppost ->
+     fields = pre ++ (vn, JObj dated) :: post -> NoDup (map fst fields) ->
+     dated = dpre ++ (t, value) :: dpost ->
+     (forall t' value', In (t', value') dpost -> value' <> JNull -> canon_key (tok x t') <> Ok p) ->
+     value <> JNull -> find_var vn (s_vars s) = Some v -> no_rule v ->
+     canon_key (tok x t) = Ok p -> check_set_value x v value = Ok c ->
+     index_of pid (map fst persons) = Some idx ->
+     exists pop rest, sim = pop :: rest /\ p_entity pop = e_key (s_person s) /\ stored pop vn p idx c) /\
+  (* 3. every group kind with declared instances *)
+  (forall e instances, In e (s_groups s) ->
+     aget (e_plural e) (aremove "axes" doc) = Some (JObj instances) ->
+     (* ids, memberships, roles *)
+     (exists pop own,
+        In pop sim /\ p_entity pop = e_key e /\
+        p_ids pop = map fst instances ++ own /\ NoDup own /\
+        (forall pid, In pid own <-> In pid (map fst persons) /\ ~ declared_in e instances pid) /\
+        List.length (p_members pop) = List.length persons /\
+        List.length (p_mroles pop) = List.length persons /\
+        (forall gid fields r j pid k gi,
+           In (gid, JObj fields) instances -> In r (e_roles e) ->
+           nth_error (role_members r fields) j = Some pid ->
+           index_of pid (map fst persons) = Some k -> index_of gid (map fst instances) = Some gi ->
+           nth_error (p_members pop) k = Some (Z.of_nat gi)
+           /\ nth_error (p_mroles pop) k = Some (role_at r j)) /\
+        (forall j pid k, nth_error own j = Some pid -> index_of pid (map fst persons) = Some k ->
+           nth_error (p_members pop) k = Some (Z.of_nat (List.length instances + j))
+           /\ nth_error (p_mroles pop) k = Some (first_role e)
+           /\ nth_error (p_ids pop) (List.length instances + j) = Some pid)) /\
+     (* the groups added for the persons left out hold default values *)
+     (forall vn v, find_var vn (s_vars s) = Some v -> v_entity v = e_key e -> no_rule v ->
+        exists pop, In pop sim /\ p_entity pop = e_key e /\
+          forall h p arr, aget vn (p_holders pop) = Some h -> hget h p = Some arr ->
+            List.length arr = List.length (p_ids pop) /\
+            forall g, (List.length instances <= g < List.length (p_ids pop))%nat ->
+                      nth_error arr g = Some (v_default v)) /\
+     (* a value declared for a group *)
+     (forall ipre gid fields ipost pre vn dated post dpre t value dpost v p c idx,
+        instances = ipre ++ (gid, JObj fields) :: ipost -> NoDup (map fst instances) ->
+        fields = pre ++ (vn, JObj dated) :: post -> NoDup (map fst fields) ->
+        ~ In vn (map role_name (e_roles e)) ->
+        dated = dpre ++ (t, value) :: dpost ->
+        (forall t' value', In (t', value') dpost -> value' <> JNull -> canon_key (tok x t') <> Ok p) ->
+        value <> JNull -> find_var vn (s_vars s) = Some v -> no_rule v ->
+        canon_key (tok x t) = Ok p -> check_set_value x v value = Ok c ->
+        index_of gid (map fst instances) = Some idx ->
+        exists pop, In pop sim /\ p_entity pop = e_key e /\ stored pop vn p idx c)).
+Proof. exact build_spec_full. Qed.
+Print Assumptions build_spec.
 
+(** the steps of the builder behind [build_spec] *)
 Theorem build_spec_partial :
   (* persons of the built simulation *)
   (forall x s doc sim persons,
